@@ -129,7 +129,7 @@ CONFIGS = [
     # salt: structure (C17, direction A)
     cfg("salt_q", [["build"], ["salt"], ["salt", "lookup"]],
         atoms=("a1",), nreg=2, maxsize=30, maxt=1, inv=("WellFormedInv",), props=("C17Prop",),
-        shapes="ShUpTo(%s, 3) \\cup {e \\in Sh(%s, 5) : IsNode(e)} \\cup NodeSubjectNodes({Leaf(V(\"a1\"))}, 9) \\cup Decorated({Leaf(V(\"a1\"))})" % (B2, B1)),
+        shapes="ShUpTo(%s, 3) \\cup {e \\in Sh(%s, 5) : IsNode(e)} \\cup NodeSubjectNodes({Leaf(V(\"a1\"))}, 9) \\cup Decorated({Leaf(V(\"a1\"))}) \\cup {Elided(Dg(Assn(Leaf(V(\"a1\")), KV(1)))), Node(Leaf(V(\"a1\")), {Elided(Dg(Assn(KV(1), Leaf(V(\"a1\")))))})}" % (B2, B1)),
     # totality: every transform on decorated / partially obscured shapes (C16)
     cfg("total_q", [["build"], ["elideset", "compressone"], ["assertions", "compress", "encrypt", "navigate", "wrap", "lookup", "salt", "elideone"]],
         atoms=("a1",), nreg=1, maxsize=14, maxt=1, inv=("WellFormedInv",), props=("C02Prop", "C07Prop"),
